@@ -23,6 +23,7 @@ package main
 // the scenario.  Nothing is matched as text.
 
 import (
+	"fmt"
 	"go/ast"
 	"go/constant"
 	"go/token"
@@ -1398,4 +1399,75 @@ func c17r10(c *RC) {
 			"Head hands its whole destination frame to its input and trims only the returned count: the rows of the destination beyond the rows delivered are overwritten with input rows the caller was told it did not get (a reader must write only the rows it returns)")
 	}
 	c.Floor("input reads in (*headReader).Read", n, 1)
+}
+
+// C06-R8: a recover handler notices every panic, panic(nil) included.
+//
+// Under this module's go directive (below go1.21) recover() returns nil for
+// panic(nil).  A handler of the form `if e := recover(); e != nil { err = ... }`
+// stops such a panic and records nothing: the task "succeeds" with whatever
+// rows it had produced, and Run returns nil.  Decided per handler on the user
+// code paths (the handlers of C06-R5): the statement that assigns the error is
+// reached also when the recovered value is nil — i.e. its guards are not
+// excluded by that scenario (a handler that keeps a completion flag and tests
+// it instead passes).
+func c06r8(c *RC) {
+	pr := c.P
+	n := 0
+	for _, fn := range pr.FuncsIn("exec") {
+		for i, d := range recoverDefers(fn) {
+			lit := d.Call.Fun.(*ast.FuncLit)
+			lf := pr.idx.byLit[lit]
+			if lf == nil {
+				continue
+			}
+			rv := ""
+			ast.Inspect(lit.Body, func(m ast.Node) bool {
+				if a, ok := m.(*ast.AssignStmt); ok && len(a.Rhs) == 1 {
+					if k, ok := a.Rhs[0].(*ast.CallExpr); ok {
+						if id, ok := k.Fun.(*ast.Ident); ok && id.Name == "recover" {
+							rv = expr(a.Lhs[0])
+						}
+					}
+				}
+				return true
+			})
+			if rv == "" {
+				continue
+			}
+			n++
+			// the assignments of the function's error result inside the handler
+			swallowed := false
+			found := false
+			ast.Inspect(lit.Body, func(m ast.Node) bool {
+				as, ok := m.(*ast.AssignStmt)
+				if !ok {
+					return true
+				}
+				for _, l := range as.Lhs {
+					if id, ok := l.(*ast.Ident); ok && c06isErrResult(fn, id) {
+						found = true
+						isNil := func(e ast.Expr) (bool, bool) {
+							if x, nonNil, ok := nilTest(e); ok && x == rv {
+								return !nonNil, true // scenario: the recovered value is nil
+							}
+							return false, false
+						}
+						// if-init guards (`if e := recover(); e != nil`) have an Init and are
+						// enclosing ifs, which guardsAt reports through the Body branch
+						if excludedBy(guardsAt(lf, as), isNil) {
+							swallowed = true
+						}
+					}
+				}
+				return true
+			})
+			if !found {
+				continue
+			}
+			c.Check(!swallowed, fmt.Sprintf("%s|recover-handler#%d|panic-nil-is-noticed", fn.QName(), i+1), pr.Pos(d.Pos()),
+				"the recover handler records an error only when the recovered value is non-nil; the module's go directive is below go1.21, so recover() returns nil for panic(nil): a user function that calls panic(nil) is stopped silently, the task is reported OK with the rows produced so far, and Run returns nil with a truncated result")
+		}
+	}
+	c.Floor("recover handlers that assign the error result", n, 3)
 }
